@@ -84,3 +84,13 @@ MANIFEST_TEXT['C13'] = dict(
                'rather than by enumeration.',
     level_note='Trusted: CrossHair/z3 and its str.encode model; the in-memory FS model. Outside: concurrency, double faults, real rename.')
 _finalise()
+
+PROPS['C10']['modules'] = ['harness.hcompile', 'harness.c10_searchers']
+PROPS['C10']['files'] = COMPILE_FILES + ['pysmi/searcher/anyfile.py', 'pysmi/searcher/pyfile.py', 'pysmi/searcher/stub.py']
+PROPS['C10']['functions'] += ['pysmi.searcher.anyfile.AnyFileSearcher.fileExists', 'pysmi.searcher.pyfile.PyFileSearcher.fileExists',
+                              'pysmi.searcher.stub.StubSearcher.fileExists']
+PROPS['C10']['stubs'] = COMPILE_STUBS + ['ModelFS os/os.path; open and struct.unpack replaced in pysmi.searcher.pyfile (the .pyc header is modelled as magic + one time field)']
+PROPS['C10']['outside'] = ['PyPackageSearcher (needs __import__/zipimport loaders)', 'the real .pyc header layout', 'real file systems']
+PROPS['C19']['modules'] = ['harness.hcompile', 'harness.c19_borrowers']
+PROPS['C19']['files'] = COMPILE_FILES + ['pysmi/borrower/base.py', 'pysmi/borrower/pyfile.py', 'pysmi/borrower/anyfile.py']
+PROPS['C19']['functions'] += ['pysmi.borrower.base.AbstractBorrower.getData', 'pysmi.borrower.base.AbstractBorrower.setOptions']
